@@ -330,7 +330,10 @@ def parser_semantics(ctx, rule):
     tails = [('clock', [0xf8], ['clock']), ('tune_request', [0xf6], ['tune_request']),
              ('note_on then start', [0x93, n1, v1, 0xfa], ['note_on', 'start']),
              ('sysex then active_sensing', [0xf0, d0, 0xf7, 0xfe], ['sysex', 'active_sensing']),
-             ('program_change', [0xc2, n2], ['program_change']), ('sysex', [0xf0, d0, d1, 0xf7], ['sysex'])]
+             ('program_change', [0xc2, n2], ['program_change']), ('sysex', [0xf0, d0, d1, 0xf7], ['sysex']),
+             # a real-time message inside a sysex that has NOT ended yet is deliverable at once, whatever is still open
+             ('clock inside an unfinished sysex', [0xf0, d0, 0xf8], ['clock']),
+             ('note_on, stop, then an unfinished sysex', [0x93, n1, v1, 0xfc, 0xf0, d0], ['note_on', 'stop'])]
     for label, st, types in tails:
         for how in ('feed', 'bytes', 'ctor'):
             def thunk():
@@ -357,6 +360,56 @@ def parser_semantics(ctx, rule):
                         f'after feeding {label} through {how_txt}: pending(), get_message(), rest = '
                         f'{outs[0].value if len(outs) == 1 and outs[0].kind == "return" else outs!r}; expected {len(types)} pending: {types}',
                         construct=f'{cls.qname}::tail::{how}')
+    # retrieval interleaved with feeding WHILE an iteration is under way: a loop over the parser that feeds more bytes, or takes
+    # a message with get_message(), from inside its body.  The loop sees what is pending when it asks, not a count fixed at its start.
+    probe_src = ("def probe_feed(p, more):\n"
+                 "    out = []\n"
+                 "    for m in p:\n"
+                 "        out.append(m)\n"
+                 "        if len(out) == 1:\n"
+                 "            p.feed(more)\n"
+                 "    return out, p.pending()\n"
+                 "def probe_get(p):\n"
+                 "    out = []\n"
+                 "    for m in p:\n"
+                 "        out.append(m)\n"
+                 "        out.append(p.get_message())\n"
+                 "    return out, p.pending()\n")
+    ptree = ast.parse(probe_src)
+    from ..model import FuncInfo as _FI, add_parents as _ap
+    _ap(ptree)
+    pm_ = ctx.p.module(PAR)
+    probes = {f.name: _FI(f.name, pm_, f) for f in ptree.body}
+    first = [0x93, n1, v1, 0xf8]
+    more = [0x83, n2, v1, 0xfa, 0xfc]
+
+    def run_probe(name, extra):
+        def thunk():
+            p = ai.apply(ClassRef(cls), [AList(list(first), 'list')], {}, None)
+            return ai.call_function(probes[name], [p] + extra(), {})
+        return ai.explore(thunk)
+    outs = run_probe('probe_feed', lambda: [AList(list(more), 'list')])
+    ok = len(outs) == 1 and outs[0].kind == 'return'
+    got = None
+    if ok:
+        items, left = ai.iterate(outs[0].value, None)
+        got = [x.attrs.get('type') if isinstance(x, AObj) else x for x in (items.items if isinstance(items, AList) else items)]
+        ok = got == ['note_on', 'clock', 'note_off', 'start', 'stop'] and left == 0
+    ctx.require(ok, rule, 'parser-iteration[feed() from inside the loop]', w,
+                f'a loop over a parser holding note_on, clock that feeds note_off, start, stop after its first message sees {got if got is not None else outs}; '
+                "expected all five in order and nothing pending afterwards (the loop must not stop at the count it started with)",
+                construct=f'{cls.qname}::iteration::feed-inside')
+    outs = run_probe('probe_get', lambda: [])
+    ok = len(outs) == 1 and outs[0].kind == 'return'
+    got = None
+    if ok:
+        items, left = ai.iterate(outs[0].value, None)
+        got = [x.attrs.get('type') if isinstance(x, AObj) else x for x in (items.items if isinstance(items, AList) else items)]
+        ok = got == ['note_on', 'clock'] and left == 0
+    ctx.require(ok, rule, 'parser-iteration[get_message() from inside the loop]', w,
+                f'a loop over a parser holding note_on, clock whose body also calls get_message() sees {got if got is not None else outs}; '
+                "expected note_on from the loop, clock from get_message(), then the end of the loop (no IndexError from a count taken earlier)",
+                construct=f'{cls.qname}::iteration::get-inside')
     m = ctx.p.module(PAR)
     for fname in ('parse_all', 'parse'):
         f = m.functions.get(fname)
